@@ -56,7 +56,7 @@ Lemma guard_passes_sound f g sh p :
   guard_passes f g = true -> facts_hold f sh p -> step g sh p = None.
 Proof.
   intros Hg Hf. pose proof Hf as (Heq & _ & _ & Hids & Htwo & Hnn).
-  destruct g as [w e a|c|c| | |mx| |]; cbn [guard_passes] in Hg; try discriminate; cbn [step].
+  destruct g as [w e a|c|c| | |mx| | |]; cbn [guard_passes] in Hg; try discriminate; cbn [step].
   - rewrite (Heq _ Hg), Nat.eqb_refl. reflexivity.
   - rewrite (cond_refuted_sound _ _ _ _ Hg Hf). reflexivity.
   - rewrite (cond_refuted_sound _ _ _ _ Hg Hf). reflexivity.
@@ -91,7 +91,7 @@ Proof.
     { intros g' _ Hand. apply andb_true_iff in Hand. destruct Hand as [Hp Hrest].
       cbn [run_guards]. rewrite (guard_passes_sound _ _ _ _ Hp Hf).
       apply (IH f sh p Hrest Hf). exists w. split; assumption. }
-    destruct g as [w' e a|c|c| | |mx| |]; try (apply Hgen; [reflexivity|exact Hr]).
+    destruct g as [w' e a|c|c| | |mx| | |]; try (apply Hgen; [reflexivity|exact Hr]).
     cbn [run_guards step].
     destruct (Nat.eqb_spec (len_of sh p (LInput w')) (length p)) as [Hq|Hq].
     + apply (IH (add_eq w' f) sh p Hr).
@@ -126,7 +126,7 @@ Proof.
   - inversion H. left. reflexivity.
   - destruct (step g sh p) as [r|] eqn:Hs; [|apply (IH _ _ _ _ H)].
     subst r.
-    destruct g as [w e a|c|c| | |mx| |]; cbn [step] in Hs.
+    destruct g as [w e a|c|c| | |mx| | |]; cbn [step] in Hs.
     + destruct (Nat.eqb _ _); inversion Hs. left. reflexivity.
     + destruct (eval_cond c sh p); inversion Hs. left. reflexivity.
     + destruct (eval_cond c sh p); inversion Hs. right. split; reflexivity.
@@ -134,6 +134,7 @@ Proof.
     + destruct (has_neg sh); inversion Hs. left. reflexivity.
     + destruct (N.ltb _ _); inversion Hs. left. reflexivity.
     + destruct (N.eqb _ _); inversion Hs. left. reflexivity.
+    + inversion Hs. left. reflexivity.
     + inversion Hs. left. reflexivity.
 Qed.
 
